@@ -450,11 +450,45 @@ Definition op_key (o : op) : list bytes :=
   | ORemVal k _ | OCnt k => k
   end.
 
+(* ================= several sub-stores in one environment =================
+   A Duror environment holds NAMED sub-databases; Subery.reopen opens three of them:
+   cans = DomSuber(subkey 'cans.'), drqs = DomIoSuber(subkey 'drqs.'), dsqs = DomIoSetSuber(subkey
+   'dsqs.').  A store of kind k works on the sub-db named [subdb_name k] and on no other. *)
+Definition kind_eqb (a b : kind) : bool :=
+  match a, b with Plain, Plain | Io, Io | IoSet, IoSet => true | _, _ => false end.
+Definition subdb_name (k : kind) : bytes :=
+  match k with
+  | Plain => [99; 97; 110; 115; 46]       (* "cans." *)
+  | Io => [100; 114; 113; 115; 46]        (* "drqs." *)
+  | IoSet => [100; 115; 113; 115; 46]     (* "dsqs." *)
+  end.
+Definition env := bytes -> dbb.
+Definition env0 : env := fun _ => [].
+Definition estep (E : env) (ko : kind * op) : env * res rv :=
+  let (d', r) := step (fst ko) (E (subdb_name (fst ko))) (snd ko) in
+  (upd bytes_eqb E (subdb_name (fst ko)) d', r).
+Fixpoint erun (E : env) (ops : list (kind * op)) : env * list (res rv) :=
+  match ops with
+  | [] => (E, [])
+  | ko :: ops' => let (E', r) := estep E ko in
+                  let (E'', rs) := erun E' ops' in (E'', r :: rs)
+  end.
+(* the ops of one store, and the results at their positions *)
+Fixpoint proj_ops (k : kind) (ops : list (kind * op)) : list op :=
+  match ops with
+  | [] => []
+  | (k', o) :: ops' => if kind_eqb k' k then o :: proj_ops k ops' else proj_ops k ops'
+  end.
+Fixpoint proj_res {A} (k : kind) (ops : list (kind * op)) (rs : list A) : list A :=
+  match ops, rs with
+  | (k', _) :: ops', r :: rs' => if kind_eqb k' k then r :: proj_res k ops' rs' else proj_res k ops' rs'
+  | _, _ => []
+  end.
+
 (* ================= correspondence ================= *)
-Record case := { c_kind : kind;
-                 c_ops : list op;
+Record case := { c_ops : list (kind * op);           (* the store each op goes to *)
                  c_results : list (res rv);
-                 c_dump : list (bytes * bytes) }.   (* full sub-db, cursor order *)
+                 c_dump : list (list (bytes * bytes)) }.   (* full sub-db of the Plain, Io, IoSet store, cursor order *)
 
 Definition rv_eqb (a b : rv) : bool :=
   match a, b with
@@ -466,9 +500,10 @@ Definition rv_eqb (a b : rv) : bool :=
   end.
 
 Definition check_case (c : case) : bool :=
-  let (d, rs) := run (c_kind c) [] (c_ops c) in
+  let (E, rs) := erun env0 (c_ops c) in
   list_eqb (res_eqb rv_eqb) rs (c_results c) &&
-  list_eqb (pair_eqb bytes_eqb bytes_eqb) d (c_dump c).
+  list_eqb (list_eqb (pair_eqb bytes_eqb bytes_eqb))
+    [E (subdb_name Plain); E (subdb_name Io); E (subdb_name IoSet)] (c_dump c).
 
 (* branch id of one op outcome: 3 per op constructor (positive / negative / raise) *)
 Definition op_index (o : op) : nat :=
@@ -485,5 +520,6 @@ Definition outcome (r : res rv) : nat :=
 Definition kind_index (k : kind) : nat := match k with Plain => 0 | Io => 1 | IoSet => 2 end.
 Definition n_branches : nat := 90%nat.
 Definition case_branches (c : case) : list nat :=
-  map (fun p => (kind_index (c_kind c) * 30 + op_index (fst p) * 3 + outcome (snd p))%nat)
-      (combine (c_ops c) (snd (run (c_kind c) [] (c_ops c)))).
+  map (fun p : (kind * op) * res rv =>
+         (kind_index (fst (fst p)) * 30 + op_index (snd (fst p)) * 3 + outcome (snd p))%nat)
+      (combine (c_ops c) (snd (erun env0 (c_ops c)))).
